@@ -66,7 +66,9 @@ class Impl:
 
 
 class Seg:
-    """duck-typed stand-in for a sqlfluff segment: what SqlFluffTable.of reads is .type, .raw, .segments"""
+    """duck-typed stand-in for a sqlfluff segment: what SqlFluffTable.of reads is .type, .raw, .segments and (since the repair
+    of D40) the layout flags .is_whitespace / .is_comment / .is_meta"""
+    is_whitespace = is_comment = is_meta = False
 
     def __init__(self, type_, raw, segments=()):
         self.type, self.raw, self.segments = type_, raw, list(segments)
@@ -195,7 +197,8 @@ def direct_failures(impl, s, rec, cfg, schema_arg):
         else:
             if t["raw"] != rec["escape"]:
                 f.append(f"Table({s!r}).raw_name = {t['raw']!r}")
-            want_schema = impl.escape(schema_arg) if schema_arg else "<default>"
+            # no schema argument: the default schema configured at CALL time (D17 repaired)
+            want_schema = impl.escape(schema_arg) if schema_arg else (impl.escape(cfg) if cfg else "<default>")
             if t["schema"] != want_schema:
                 f.append(f"Table({s!r}).schema = {t['schema']!r}, expected {want_schema!r}")
             if t["warned"]:
